@@ -49,7 +49,19 @@ def gen_ahb(rnd, pick_expr, n_roots=(1, 3), depth=2, fanout=(0, 2), n_segments=(
         node["segments"] = [gen_segment() for _ in range(rnd.randint(*n_segments))]
         return node
 
-    return {"lines": [gen_group(0) for _ in range(rnd.randint(*n_roots))]}
+    ahb = {"lines": [gen_group(0) for _ in range(rnd.randint(*n_roots))]}
+    # maus keeps the line of the flat AHB a node came from in `ahb_line_index` (optional, informational): document
+    # order is the order of the lists - the indexes may be absent, ascending, or not in list order at all
+    mode = rnd.choice(["none", "none", "ascending", "shuffled", "partial"])
+    if mode != "none":
+        nodes = [n for n, _ in walk(ahb) if n["t"] in ("g", "s")]
+        indexes = list(range(1, len(nodes) + 1))
+        if mode != "ascending":
+            rnd.shuffle(indexes)
+        for node, index in zip(nodes, indexes):
+            if mode != "partial" or rnd.random() < 0.5:
+                node["li"] = index
+    return ahb
 
 
 def build_ahb(ahb):
@@ -71,18 +83,21 @@ def build_node(node):
     )
 
     kind = node["t"]
+    line_index = {"ahb_line_index": node["li"]} if node.get("li") is not None else {}
     if kind == "g":
         # maus allows both None and [] for "nothing here"; which one is used is decided by the node itself
         use_none = sum(map(ord, node["d"])) % 2 == 0
         return SegmentGroup(
             discriminator=node["d"],
             ahb_expression=node["e"],
+            **line_index,
             segments=[build_node(s) for s in node.get("segments", [])] or (None if use_none else []),
             segment_groups=[build_node(g) for g in node.get("groups", [])] or (None if use_none else []),
         )
     if kind == "s":
         return Segment(
-            discriminator=node["d"], ahb_expression=node["e"], data_elements=[build_node(d) for d in node["des"]]
+            discriminator=node["d"], ahb_expression=node["e"], data_elements=[build_node(d) for d in node["des"]],
+            **line_index,
         )
     if kind == "f":
         from maus.models.edifact_components import DataElementDataType
